@@ -79,6 +79,10 @@ def extract(repo=REPO, log=lambda m: print('[extract] ' + m, file=sys.stderr)):
         out = os.path.join(CACHE, 'facts', h)
         ok = os.path.join(out, 'OK')
         if os.path.exists(ok):
+            try:
+                os.utime(out, None)          # mark as in use (eviction below spares recently used directories)
+            except OSError:
+                pass
             return out, h, {'cached': True}
         ensure_driver(log)
         if os.path.exists(out):
@@ -125,9 +129,12 @@ def extract(repo=REPO, log=lambda m: print('[extract] ' + m, file=sys.stderr)):
         with open(ok, 'w') as fh:
             fh.write('%d files in %.1fs\n' % (len(files), dt))
         # keep the cache small: retain the 16 most recent fact dirs
+        # (never one used in the last half hour: another check may be reading it right now)
         dirs = sorted(glob.glob(os.path.join(CACHE, 'facts', '*')), key=os.path.getmtime)
+        now = time.time()
         for d in dirs[:-16]:
-            shutil.rmtree(d, ignore_errors=True)
+            if now - os.path.getmtime(d) > 1800:
+                shutil.rmtree(d, ignore_errors=True)
         return out, h, {'cached': False, 'seconds': dt, 'files': len(files)}
     finally:
         fcntl.flock(lock, fcntl.LOCK_UN)
